@@ -241,15 +241,20 @@ func (m Migration) getIndexTable(tableName string) int {
 
 // Diff differ between 2 migrations
 func (m *Migration) Diff(old Migration) {
+	// a table the old history created and dropped again (no action) or only dropped (remove) does not exist
+	exists := func(tb Table) bool {
+		return tb.Action != MigrateNoAction && tb.Action != MigrateRemoveAction
+	}
+
 	for i := range m.Tables {
-		if j := old.getIndexTable(m.Tables[i].Name); j >= 0 {
+		if j := old.getIndexTable(m.Tables[i].Name); j >= 0 && exists(old.Tables[j]) {
 			m.Tables[i].Diff(old.Tables[j])
 			m.Tables[i].Action = MigrateNoAction
 		}
 	}
 
 	for j := range old.Tables {
-		if i := m.getIndexTable(old.Tables[j].Name); i == -1 {
+		if i := m.getIndexTable(old.Tables[j].Name); i == -1 && exists(old.Tables[j]) {
 			old.Tables[j].Action = MigrateRemoveAction
 			m.AddTable(old.Tables[j])
 		}
